@@ -181,6 +181,91 @@ def _norm(s):
 
 # --------------------------------------------------------------------------- R-CTOR-TOTAL / R-SIBLING-RX
 
+RX_FUNCS = {'re.compile': 0, 're.match': 0, 're.search': 0, 're.fullmatch': 0, 're.sub': 0, 're.subn': 0, 're.split': 0,
+            're.findall': 0, 're.finditer': 0}
+
+
+def regex_constants(model):
+    """Every regular expression the package hands to the re module: (unit, node, pattern, flags) for the ones
+    whose pattern folds to a constant, (unit, node, None, None) for the others."""
+    from ..interp import Frame
+    out = []
+    for u in model.units.values():
+        owners = {}
+        for c in model.classes.values():
+            if c.modname == u.modname:
+                for n in ast.walk(c.node):
+                    owners.setdefault(id(n), c)
+        for n in ast.walk(u.tree):
+            if not isinstance(n, ast.Call):
+                continue
+            try:
+                ref = model.resolve_expr(u.modname, n.func)
+            except Exception:
+                ref = None
+            d = getattr(ref, 'dotted', None)
+            if d not in RX_FUNCS or not n.args:
+                continue
+            it = Interp(model)
+            it.reset_run(Oracle())
+            owner = owners.get(id(n))
+            fr = Frame(None, u.modname, {}, cls=owner)
+            if owner is not None:
+                fr.class_scope = owner
+            try:
+                pat = it.eval(n.args[0], fr)
+                flags = 0
+                fl = [k.value for k in n.keywords if k.arg == 'flags']
+                if d == 're.compile' and len(n.args) > 1:
+                    fl = [n.args[1]]
+                if fl:
+                    flags = it.eval(fl[0], fr)
+                if isinstance(pat, RxVal):
+                    pat, flags = pat.pattern, pat.flags
+            except Exception:
+                pat, flags = None, None
+            if isinstance(pat, str) and isinstance(flags, int):
+                out.append((u, n, pat, int(flags)))
+            else:
+                out.append((u, n, None, None))
+    return out
+
+
+def rule_rx_backtrack(ctx, rep):
+    """Termination of the regex engine, the exponential part: no regular expression of the package lets a text be
+    consumed by one of its loops in two different ways (sa/redos.py). Patterns that are not constants are listed."""
+    from .. import redos
+    model = ctx.model
+    rule = 'R-RX-BACKTRACK'
+    rep.rule(rule, 'no regular expression can consume a text in two different ways inside a loop (exponential backtracking)')
+    n = 0
+    undecided = []
+    seen = set()
+    for u, node, pat, flags in regex_constants(model):
+        if pat is None:
+            undecided.append('%s:%d' % (u.relpath, node.lineno))
+            continue
+        if (pat, flags) in seen:
+            continue
+        seen.add((pat, flags))
+        rep.instance(rule)
+        n += 1
+        try:
+            hit = redos.exponential(pat, flags)
+        except rx.RxUnsupported as e:
+            undecided.append('%s:%d (%s)' % (u.relpath, node.lineno, e))
+            continue
+        rep.obligation(rule, hit is None, {'pattern': pat[:80], 'where': '%s:%d' % (u.relpath, node.lineno), 'finding': hit[0] if hit else None})
+        if hit is not None:
+            kind, why, attack = hit
+            owner = model.enclosing_function(node)
+            rep.find(rule, owner.short if owner is not None else u.modname.split('.', 1)[-1], '%s:%s' % (kind, pat[:40]),
+                     'the regular expression %r backtracks exponentially: %s' % (pat[:100] + ('...' if len(pat) > 100 else ''), why),
+                     loc(u, node), witness=attack)
+    rep.extra['regexes_not_decided'] = undecided
+    rep.floor(rule, n, 15)
+
+
 def rule_sibling_rx(ctx, rep):
     model = ctx.model
     rep.rule('R-SIBLING-RX', 'L_match(List.pattern) is included in L_match(ListItem.pattern)')
@@ -344,9 +429,13 @@ def run(ctx):
     rule_map(ctx, rep, facts)
     rule_render_total(ctx, rep, facts)
     sib = rule_sibling_rx(ctx, rep)
+    rule_rx_backtrack(ctx, rep)
     rule_ctor_total(ctx, rep, facts, sib)
     rule_progress(ctx, rep, facts)
     rule_raise(ctx, rep)
+    # "Delimiter.remove / index bookkeeping after a match": the delimiter stack surgery, on bounded stacks (C06's simulation)
+    from . import c06
+    c06.rule_stack_sim(ctx, rep, only_raises=True)
     from . import c01_lint
     c01_lint.rule_idx(ctx, rep)
     c01_lint.rule_loop(ctx, rep)
